@@ -55,7 +55,10 @@ class ChainGen:
         rules['Item'] = r.choice([T, ('str', 'a'), ('alt', [('str', 'a'), ('str', 'b')])])
         rules['Pair'] = ('seq', [('ref', 'Item'), r.choice([('str', ','), ('str', ':')]), ('ref', 'Item')])
         rules['Elem'] = r.choice([('alt', [('ref', 'Pair'), ('ref', 'Item')]),
-                                  ('alt', [('seq', [('str', '('), ('ref', 'List'), ('str', ')')]), ('ref', 'Pair'), ('ref', 'Item')])])
+                                  ('alt', [('seq', [('str', '('), ('ref', 'List'), ('str', ')')]), ('ref', 'Pair'), ('ref', 'Item')]),
+                                  # directly self-recursive: the inner reference must stay late-bound
+                                  ('alt', [('seq', [('str', '('), ('ref', 'Elem'), ('str', ')')]), ('ref', 'Pair'), ('ref', 'Item')]),
+                                  ('alt', [('right', ('str', '('), ('left', ('ref', 'Elem'), ('str', ')'))), ('ref', 'Item')])])
         rules['List'] = r.choice([('star', ('ref', 'Elem')), ('sep', ('ref', 'Elem'), ('str', ';'), {'_op': '//'}),
                                   ('plus', ('ref', 'Elem'))])
         rules['start'] = r.choice([('ref', 'List'), ('seq', [('ref', 'List'), ('opt', ('str', '!'))])])
@@ -269,6 +272,16 @@ def curated_chains():
     out.append(('super-3-both', 'none', [A, B_super_item, [('rule', 'Item', None, ('alt', [('str', 'd'), ('super', 'Item')]))]]))
     out.append(('super-3-start', 'none', [A, [('rule', 'start', None, ('right', ('str', '!'), ('super', 'start')))],
                                           [('rule', 'Item', None, ('alt', [('str', 'd'), ('super', 'Item')]))]]))
+    # direct self-recursion in the base rule + override reaching it through super + a new form nested
+    # inside an old form: the recursive reference inside the inherited rule must use the override
+    REC = [('rule', 'start', None, ('ref', 'Expr')),
+           ('rule', 'Expr', None, ('alt', [('right', ('str', '('), ('left', ('ref', 'Expr'), ('str', ')'))), ('ref', 'Num')])),
+           ('rule', 'Num', None, ('re', '[ab]', False))]
+    NEG = [('rule', 'Expr', None, ('alt', [('ref', 'Neg'), ('super', 'Expr')])),
+           ('rule', 'Neg', None, ('seq', [('str', 'c'), ('ref', 'Expr')]))]
+    out.append(('self-recursive-2', 'none', [REC, NEG]))
+    out.append(('self-recursive-3', 'none', [REC, NEG, [('rule', 'Num', None, ('alt', [('str', 'd'), ('super', 'Num')]))]]))
+    out.append(('self-recursive-3b', 'none', [REC, [('rule', 'Num', None, ('alt', [('str', 'd'), ('super', 'Num')]))], NEG]))
     out.append(('class-override', 'none', [A + [('rule', 'P', None, ('seq', [('str', '@'), ('ref', 'Pt')]))],
                                            [('class', 'Pt', None, [('field', 'x', ('ref', 'Item')), ('field', 'z', ('str', '^'))])]]))
     sp = ('irule', 'Space', ('re', ' +', False))
